@@ -166,7 +166,7 @@ const MARK_STALL_DONE: u32 = 5;
 /// (blocks in the join while holding the list lock), T1 registers S2 meanwhile; gate opens; more actions.
 fn execute_lone(c: &DCfg, seed: u64) -> W {
     let ctx = Ctx::new(ScriptSrc::Table(vec![Script::plain()]), 3, seed, c.perturb, false);
-    let w = W::new(ctx, vec![StoreCfg { policy: POL_BLOCK, cap: 16, n_red: c.n_red, n_mw: 0, name: "rsvd".into() }]);
+    let w = W::new(ctx, vec![StoreCfg { policy: POL_BLOCK, cap: 16, n_red: c.n_red, n_mw: 0, name: "rsvd".into(), ctor: 0 }]);
     let (xid, xsn) = w.add_channeled(0, 4, POL_BLOCK, 1, true, true, false);
     for k in 0..3 {
         w.dispatch(0, EP_INHERENT, Act { id: act_id(0, 1, k + 1), script: 0 });
@@ -200,7 +200,7 @@ pub fn execute(c: &DCfg, seed: u64) -> W {
         return execute_lone(c, seed);
     }
     let ctx = Ctx::new(ScriptSrc::Table(c.scripts.clone()), 3, seed, c.perturb, false);
-    let w = W::new(ctx, vec![StoreCfg { policy: c.policy, cap: c.cap, n_red: c.n_red, n_mw: 0, name: "rsvd".into() }]);
+    let w = W::new(ctx, vec![StoreCfg { policy: c.policy, cap: c.cap, n_red: c.n_red, n_mw: 0, name: "rsvd".into(), ctor: 0 }]);
     let total = (c.n_prod * c.per_prod) as u64;
     let returned = Counter::new();
     let registered = Counter::new();
